@@ -490,7 +490,7 @@ int sm2_compute_z(uint8_t z[32], const SM2_Z256_POINT *pub, const char *id, size
 	sm2_z256_point_to_bytes(pub, &zin[18 + 32 * 4]);
 
 	sm3_init(&ctx);
-	if (strcmp(id, SM2_DEFAULT_ID) == 0) {
+	if (idlen == SM2_DEFAULT_ID_LENGTH && memcmp(id, SM2_DEFAULT_ID, SM2_DEFAULT_ID_LENGTH) == 0) {
 		sm3_update(&ctx, zin, sizeof(zin));
 	} else {
 		uint8_t idbits[2];
